@@ -96,7 +96,7 @@ let check _ln line =
     let len = List.length input in
     let plen = z_of_int len in
     let pf = parse_float_of (float_table ftab) in
-    let fuel = nat_of_int (len + 1) in
+    let fuel = fuel_for_input input in   (* the fuel the theorems are stated with: 2 len + 2 *)
     let rhs = String.trim rhs in
     let (alloc_s, obs) =
       match String.index_opt rhs ' ' with
